@@ -1289,6 +1289,60 @@ func (env *c10SetEnv) readOld(t *rapid.T) (string, int) {
 	return oldStr, len(c10SetOf(old))
 }
 
+// narrowDescendants rewrites pod / container dirs to strict, non-empty subsets of their parent's cpuset (a hierarchy-valid
+// state, e.g. what an agent that crashed in the middle of a growing rewrite leaves behind). At least one dir is narrowed
+// when the root holds two or more CPUs and a descendant exists. Returns the number of narrowed dirs.
+func (env *c10SetEnv) narrowDescendants(t *rapid.T, rootSet []int, label string) int {
+	pick := func(parent []int, lbl string) []int {
+		p := append([]int(nil), parent...)
+		sort.Ints(p)
+		k := rapid.IntRange(1, len(p)-1).Draw(t, lbl+"Size")
+		off := rapid.IntRange(0, len(p)-1).Draw(t, lbl+"Offset")
+		var out []int
+		for i := 0; i < k; i++ {
+			out = append(out, p[(off+i)%len(p)])
+		}
+		return out
+	}
+	root := append([]int(nil), rootSet...)
+	if len(c10SetOf(root)) < 2 || len(env.allDirs) < 2 {
+		return 0
+	}
+	narrowed := 0
+	sets := map[string][]int{env.beRoot: root}
+	desc := env.allDirs[1:]
+	for i, d := range desc {
+		parent := sets[filepath.Dir(d)]
+		if parent == nil {
+			parent = root
+		}
+		set := parent
+		force := narrowed == 0 && i == len(desc)-1
+		if len(parent) >= 2 && (force || rapid.Bool().Draw(t, label+"Narrow")) {
+			set = pick(parent, label)
+			narrowed++
+		}
+		sets[d] = set
+		if err := env.fs.writeCPUSet(d, c10FmtSet(set)); err != nil {
+			t.Fatalf("harness: %v", err)
+		}
+	}
+	return narrowed
+}
+
+func (env *c10SetEnv) treeString() string {
+	var parts []string
+	for _, d := range env.allDirs {
+		raw, _ := c10ReadTrim(env.fs.cpusetFile(d))
+		name := strings.TrimPrefix(strings.TrimPrefix(d, env.beRoot), "/")
+		if name == "" {
+			name = "<root>"
+		}
+		parts = append(parts, fmt.Sprintf("%s=%q", name, raw))
+	}
+	return strings.Join(parts, " ")
+}
+
 // refreshEffective does what the kernel would do on cgroup v2 after a write to cpuset.cpus.
 func (env *c10SetEnv) refreshEffective() {
 	if !env.s.V2 {
@@ -1340,9 +1394,24 @@ func (env *c10SetEnv) exclusion(t *rapid.T, c *vk.Case, dir string, list []int, 
 func (env *c10SetEnv) observeSuppressed(t *rapid.T, c *vk.Case, where string, hist []string, want, unlimited, step, oldN int) (result string, stop bool) {
 	s := env.s
 	e := len(env.eligible)
+	// A dir is judged when this round handed a write for it to the executor, or when enough CPUs are eligible: then the dir must
+	// hold the target whether or not the round had to write it (an agent may skip a write of an unchanged value).
+	judged := func(attempted bool) bool { return attempted || e >= want }
+	sameSet := func(a, b []int) bool {
+		x, y := c10SetOf(a), c10SetOf(b)
+		if len(x) != len(y) {
+			return false
+		}
+		for id := range x {
+			if !y[id] {
+				return false
+			}
+		}
+		return true
+	}
 	count := func(dir string, list []int, attempted bool) bool {
 		size := 0
-		if attempted {
+		if judged(attempted) {
 			size = len(list)
 		}
 		if size > unlimited {
@@ -1359,9 +1428,11 @@ func (env *c10SetEnv) observeSuppressed(t *rapid.T, c *vk.Case, where string, hi
 	}
 	if s.Policy != "static" {
 		// every BE cgroup (root, pod, container) gets the derived set
+		var rootList []int
+		rootJudged := false
 		for i, d := range env.allDirs {
 			list, raw, attempted := env.read(t, c, d, where)
-			if !attempted {
+			if !judged(attempted) {
 				list = nil
 			}
 			if env.exclusion(t, c, d, list, where, hist) {
@@ -1372,20 +1443,35 @@ func (env *c10SetEnv) observeSuppressed(t *rapid.T, c *vk.Case, where string, hi
 				if count(d, list, attempted) {
 					return result, true
 				}
+				rootList, rootJudged = list, judged(attempted)
+				continue
+			}
+			// when the round completes every BE cgroup below the root holds the same set as the root, i.e. the target
+			if rootJudged && !sameSet(list, rootList) {
+				return result, c.Violation(t, "cpuset:descendant-not-at-target-after-round", "%s holds %q but the BE root holds %q after the round; %s; scenario: %s; history=%v",
+					d, raw, c10FmtSet(rootList), where, s, hist)
 			}
 		}
 		return result, false
 	}
 	// static kubelet policy: root and pod level are reset to "everything not protected", containers get the derived set
 	for _, d := range env.allDirs[:1+len(s.BEDirs)] {
-		list, _, attempted := env.read(t, c, d, where)
-		if attempted && env.exclusion(t, c, d, list, where, hist) {
-			return result, true
-		}
-	}
-	for i, d := range env.ctrDirs {
 		list, raw, attempted := env.read(t, c, d, where)
 		if !attempted {
+			continue
+		}
+		if env.exclusion(t, c, d, list, where, hist) {
+			return result, true
+		}
+		if !sameSet(list, env.eligible) {
+			return result, c.Violation(t, "cpuset:descendant-not-at-target-after-round", "static kubelet policy: %s holds %q after the round, expected every unprotected CPU %q; %s; scenario: %s; history=%v",
+				d, raw, c10FmtSet(env.eligible), where, s, hist)
+		}
+	}
+	var firstList []int
+	for i, d := range env.ctrDirs {
+		list, raw, attempted := env.read(t, c, d, where)
+		if !judged(attempted) {
 			list = nil
 		}
 		if env.exclusion(t, c, d, list, where, hist) {
@@ -1396,6 +1482,10 @@ func (env *c10SetEnv) observeSuppressed(t *rapid.T, c *vk.Case, where string, hi
 		}
 		if i == 0 {
 			result = fmt.Sprintf("%q(written=%v)", raw, attempted)
+			firstList = list
+		} else if e >= want && !sameSet(list, firstList) {
+			return result, c.Violation(t, "cpuset:descendant-not-at-target-after-round", "static kubelet policy: container %s holds %q but %s holds %q after the round; %s; scenario: %s; history=%v",
+				d, raw, env.ctrDirs[0], c10FmtSet(firstList), where, s, hist)
 		}
 	}
 	return result, false
@@ -1429,18 +1519,36 @@ func TestVerifC10AdjustCPUSet(t *testing.T) {
 			t.Fatalf("harness: cannot prepare cgroup dir: %v", err)
 		}
 
+		// the BE tree need not be uniform before the first round: descendants may hold narrower sets than the root
+		if rapid.IntRange(0, 3).Draw(t, "initialDescendantsNarrower") == 0 && env.narrowDescendants(t, s.Old, "initial") > 0 {
+			c.Class("initial-descendants-narrower")
+		}
+
 		inf := s.buildInformer()
 		info := &metriccache.NodeCPUInfo{ProcessorInfos: append([]koordletutil.ProcessorInfo(nil), s.Topo.Procs...)}
-		r := &CPUSuppress{
-			statesInformer:         inf,
-			metricCache:            &c10MetricCache{info: info},
-			executor:               exec,
-			cgroupReader:           resourceexecutor.NewCgroupReader(),
-			suppressPolicyStatuses: map[string]suppressPolicyStatus{},
+		var r *CPUSuppress
+		var stops []chan struct{}
+		defer func() {
+			for _, ch := range stops {
+				close(ch)
+			}
+		}()
+		// start (or, after a simulated crash, restart) the agent: new plugin instance, new executor with an empty cache
+		startAgent := func() {
+			exec = c10NewExec()
+			env.exec = exec
+			r = &CPUSuppress{
+				statesInformer:         inf,
+				metricCache:            &c10MetricCache{info: info},
+				executor:               exec,
+				cgroupReader:           resourceexecutor.NewCgroupReader(),
+				suppressPolicyStatuses: map[string]suppressPolicyStatus{},
+			}
+			stop := make(chan struct{})
+			stops = append(stops, stop)
+			r.init(stop)
 		}
-		stop := make(chan struct{})
-		defer close(stop)
-		r.init(stop)
+		startAgent()
 
 		hasLSE, hasLSR := s.hasOwners()
 		static := s.Policy == "static"
@@ -1463,10 +1571,19 @@ func TestVerifC10AdjustCPUSet(t *testing.T) {
 		nRounds := rapid.IntRange(1, 3).Draw(t, "rounds")
 		var hist []string
 		nontrivial := false
+		crashed := false     // a crash-recovery state was injected before this round
+		everCrashed := false // at most one injection per case
+		var lastMilli int64
 		for round := 0; round < nRounds; round++ {
 			oldStr, oldN := env.readOld(t)
 			_, _, step := c10Target(0, oldN, n)
-			milli := c10GenBudgetMilli(t, e, oldN, n, step)
+			var milli int64
+			if crashed {
+				milli = lastMilli // the restarted agent sees the same inputs as the interrupted round
+			} else {
+				milli = c10GenBudgetMilli(t, e, oldN, n, step)
+			}
+			lastMilli = milli
 			want, unlimited, step := c10Target(milli, oldN, n)
 			where := fmt.Sprintf("round %d: budget=%dm old=%q(%d cpus) processors=%d step=%d target=%d eligible=%d(%s)", round, milli, oldStr, oldN, n, step, want, e, c10FmtSet(eligible))
 
@@ -1513,8 +1630,29 @@ func TestVerifC10AdjustCPUSet(t *testing.T) {
 			if abandon {
 				return
 			}
+			if crashed {
+				rootNow, _ := c10ReadTrim(env.fs.cpusetFile(beRoot))
+				c.ClassIf(rootNow == oldStr, "crash-recovery-root-already-at-target")
+				result += " (after crash recovery)"
+			}
+			crashed = false
 			hist = append(hist, where+" -> "+result)
 			env.refreshEffective()
+			// crash-recovery state: the agent died in the middle of the rewrite it is about to repeat; the root already holds the
+			// set, some pod / container dirs still hold a strict subset. Only under kubelet policy none, where the agent owns the tree.
+			if !static && !everCrashed && len(env.allDirs) > 1 && rapid.IntRange(0, 2).Draw(t, "crashAfterRound") == 0 {
+				rootRaw, _ := c10ReadTrim(env.fs.cpusetFile(beRoot))
+				rootSet, _ := c10ParseList(rootRaw)
+				if env.narrowDescendants(t, rootSet, "crash") > 0 {
+					c.Class("crash-recovery-state")
+					hist = append(hist, "agent crashed and restarted; BE tree left at "+env.treeString())
+					crashed, everCrashed = true, true
+					startAgent()
+					if round == nRounds-1 {
+						nRounds++ // the restarted agent gets its round
+					}
+				}
+			}
 		}
 		if nontrivial {
 			c.NonTrivial(s.String(), hist)
@@ -1828,18 +1966,31 @@ func TestVerifC10SuppressHistory(t *testing.T) {
 		inf.node = &corev1.Node{ObjectMeta: metav1.ObjectMeta{Name: "n"}, Status: corev1.NodeStatus{
 			Capacity: corev1.ResourceList{corev1.ResourceCPU: capQ}, Allocatable: corev1.ResourceList{corev1.ResourceCPU: capQ}}}
 		info := &metriccache.NodeCPUInfo{ProcessorInfos: append([]koordletutil.ProcessorInfo(nil), s.Topo.Procs...)}
-		r := &CPUSuppress{
-			interval:               time.Second,
-			metricCollectInterval:  time.Second,
-			statesInformer:         inf,
-			metricCache:            &c10MetricCache{info: info},
-			executor:               exec,
-			cgroupReader:           resourceexecutor.NewCgroupReader(),
-			suppressPolicyStatuses: map[string]suppressPolicyStatus{},
+		var r *CPUSuppress
+		var stops []chan struct{}
+		defer func() {
+			for _, ch := range stops {
+				close(ch)
+			}
+		}()
+		// start (or, after a simulated crash, restart) the agent: new plugin instance, new executor with an empty cache
+		startAgent := func() {
+			exec = c10NewExec()
+			env.exec = exec
+			r = &CPUSuppress{
+				interval:               time.Second,
+				metricCollectInterval:  time.Second,
+				statesInformer:         inf,
+				metricCache:            &c10MetricCache{info: info},
+				executor:               exec,
+				cgroupReader:           resourceexecutor.NewCgroupReader(),
+				suppressPolicyStatuses: map[string]suppressPolicyStatus{},
+			}
+			stop := make(chan struct{})
+			stops = append(stops, stop)
+			r.init(stop)
 		}
-		stop := make(chan struct{})
-		defer close(stop)
-		r.init(stop)
+		startAgent()
 
 		c.Class("kubelet-policy:" + s.Policy)
 		c.ClassIf(s.V2, "cgroup-v2")
@@ -1853,13 +2004,20 @@ func TestVerifC10SuppressHistory(t *testing.T) {
 		lastQuotaWritten := int64(-2) // value the last quota-mode round left in the file
 		nonQuotaSinceQuota := false
 		switchBack := false
+		crashed, everCrashed := false, false
 		for round := 0; round < nRounds; round++ {
-			policy := rapid.SampledFrom([]string{"cfsQuota", "cfsQuota", "cfsQuota", "cpuset", "cpuset", "disabled", "disabled", "be-cpu-manager"}).Draw(t, "policy")
+			var policy string
 			l := prevLoad
-			if round == 0 || rapid.IntRange(0, 2).Draw(t, "sameLoadAsPreviousRound") == 0 {
-				l = c10GenLoad(t, n)
-			} else {
-				c.Class("same-budget-as-previous-round")
+			switch {
+			case crashed: // the restarted agent repeats the interrupted cpuset round with the same inputs
+				policy = "cpuset"
+			default:
+				policy = rapid.SampledFrom([]string{"cfsQuota", "cfsQuota", "cfsQuota", "cpuset", "cpuset", "disabled", "disabled", "be-cpu-manager"}).Draw(t, "policy")
+				if round == 0 || rapid.IntRange(0, 2).Draw(t, "sameLoadAsPreviousRound") == 0 {
+					l = c10GenLoad(t, n)
+				} else {
+					c.Class("same-budget-as-previous-round")
+				}
 			}
 			prevLoad = l
 			milli := l.budgetMilli(n)
@@ -2001,11 +2159,31 @@ func TestVerifC10SuppressHistory(t *testing.T) {
 				}
 				result = fmt.Sprintf("cpuset recovered to %q", c10FmtSet(env.eligible))
 			}
+			if crashed {
+				rootNow, _ := c10ReadTrim(env.fs.cpusetFile(beRoot))
+				c.ClassIf(rootNow == oldStr, "crash-recovery-root-already-at-target")
+				result += " (after crash recovery)"
+			}
+			crashed = false
 			hist = append(hist, fmt.Sprintf("%s -> quota %q, %s", where, gotRaw, result))
 			// what the kernel would do on cgroup v2: refresh cpuset.cpus.effective, keep the period field of cpu.max
 			env.refreshEffective()
 			if s.V2 {
 				writeQuota(gotQuota)
+			}
+			// crash-recovery state after a cpuset-mode round (kubelet policy none): root at the set, some descendants at a strict subset
+			if policy == "cpuset" && s.Policy != "static" && !everCrashed && len(env.allDirs) > 1 && rapid.IntRange(0, 1).Draw(t, "crashAfterRound") == 0 {
+				rootRaw, _ := c10ReadTrim(env.fs.cpusetFile(beRoot))
+				rootSet, _ := c10ParseList(rootRaw)
+				if env.narrowDescendants(t, rootSet, "crash") > 0 {
+					c.Class("crash-recovery-state")
+					hist = append(hist, "agent crashed and restarted; BE tree left at "+env.treeString())
+					crashed, everCrashed = true, true
+					startAgent()
+					if round == nRounds-1 {
+						nRounds++
+					}
+				}
 			}
 		}
 		kinds := map[string]bool{}
